@@ -1,7 +1,8 @@
 // C14 - saturating arithmetic, midpoint, gcd/lcm, abs, idiv, ipow, ilog2 vs std <numeric> / exact __int128 arithmetic
 // (DESIGN section 4, C14).  Public tetl API only.
-//   -DC14_PART=1 : same-type families for the ten standard integer types
+//   -DC14_PART=1 : same-type families for the ten standard integer types   (-DC14_ROWS=0 signed, 1 unsigned)
 //   -DC14_PART=2 : gcd/lcm over mixed type pairs (std::gcd/lcm accept any two integer types)
+//                  (-DC14_ROWS=0..3 : first type in {int8,int16} / {int32,int64} / {uint8,uint16} / {uint32,uint64})
 #include "vf.hpp"
 #include "vf_contract.hpp"
 
@@ -16,6 +17,9 @@
 
 #ifndef C14_PART
     #define C14_PART 1
+#endif
+#ifndef C14_ROWS
+    #define C14_ROWS 0
 #endif
 
 namespace {
@@ -188,7 +192,7 @@ inline bool pow128(i128 b, unsigned e, i128 l, i128 h, i128& out)
 {
     i128 r = 1;
     for (unsigned i = 0; i < e; ++i) {
-        r *= b; // |r| <= 2^64, |b| <= 2^64: no overflow in 128 bits
+        if (__builtin_mul_overflow(r, b, &r)) { return false; } // (2^64-1)^2 does not fit 128 signed bits
         if (r < l || r > h) { return false; }
     }
     out = r;
@@ -370,49 +374,55 @@ vf::Spec spec(vf::Tier t) { return make_spec(t, 2, 64); }
 
 void c14::register_all()
 {
-#if C14_PART == 1
+#if C14_PART == 1 && C14_ROWS == 0
     reg_type<signed char>();
-    reg_type<unsigned char>();
     reg_type<short>();
-    reg_type<unsigned short>();
     reg_type<int>();
-    reg_type<unsigned>();
     reg_type<long>();
-    reg_type<unsigned long>();
     reg_type<long long>();
-    reg_type<unsigned long long>();
     reg_unary<Labs>();
     reg_unary<Llabs>();
     reg_unary<IpowT<2>>(false);
-    reg_unary<IpowT<2u>>(false);
     reg_unary<IpowT<2L>>(false);
-    reg_unary<IpowT<2ull>>(false);
-    reg_unary<IpowT<static_cast<unsigned char>(2)>>(false);
     reg_unary<IpowT<static_cast<short>(2)>>(false);
     reg_unary<IpowT<3>>(false);
     reg_unary<IpowT<10>>(false);
     reg_unary<IpowT<-2>>(false);
-    reg_unary<IpowT<10ull>>(false);
     reg_unary<IpowT<-3L>>(false);
     reg_unary<IpowT<static_cast<signed char>(-2)>>(false);
-#else
+#elif C14_PART == 1
+    reg_type<unsigned char>();
+    reg_type<unsigned short>();
+    reg_type<unsigned>();
+    reg_type<unsigned long>();
+    reg_type<unsigned long long>();
+    reg_unary<IpowT<2u>>(false);
+    reg_unary<IpowT<2ull>>(false);
+    reg_unary<IpowT<static_cast<unsigned char>(2)>>(false);
+    reg_unary<IpowT<10ull>>(false);
+#elif C14_ROWS == 0
     reg_row<signed char>();
-    reg_row<unsigned char>();
     reg_row<short>();
-    reg_row<unsigned short>();
-    reg_row<int>();
-    reg_row<unsigned>();
-    reg_row<long>();
-    reg_row<unsigned long>();
     reg_pair<long long, unsigned long>();
-    reg_pair<unsigned long long, long>();
     reg_pair<long, long long>();
+#elif C14_ROWS == 1
+    reg_row<int>();
+    reg_row<long>();
+#elif C14_ROWS == 2
+    reg_row<unsigned char>();
+    reg_row<unsigned short>();
+    reg_pair<unsigned long long, long>();
+#else
+    reg_row<unsigned>();
+    reg_row<unsigned long>();
     reg_pair<int, unsigned long long>();
 #endif
 }
 
+#define C14_STR2(x) #x
+#define C14_STR(x) C14_STR2(x)
 #if C14_PART == 1
-VF_MAIN("C14", "C14_arith", spec, c14::run_case)
+VF_MAIN("C14", "C14_arith_" C14_STR(C14_ROWS), spec, c14::run_case)
 #else
-VF_MAIN("C14", "C14_gcdmix", spec, c14::run_case)
+VF_MAIN("C14", "C14_gcdmix_" C14_STR(C14_ROWS), spec, c14::run_case)
 #endif
